@@ -138,6 +138,4 @@ Fixpoint wf_magic (l : list (bytes * str * N)) : bool :=
       && forallb (fun e => indep m (fst (fst e))) r && wf_magic r
   end.
 
-Definition ustar_at (T : tables) (file : bytes) : bool :=
-  (tar_magic_offset T + 5 <=? lenN (takeN 512 file))
-  && str_eqb (takeN 5 (dropN (tar_magic_offset T) (takeN 512 file))) (tar_magic T).
+Definition ustar_at (T : tables) (file : bytes) : bool := ustar_in T (takeN 512 file).
